@@ -44,6 +44,9 @@ where
         };
 
         let to = min(to, input.len());
+        // A presence bitmap may be shorter than the column (trailing NULLs are not materialized, unset bits are
+        // implied): a later chunk then starts beyond its end and is empty.
+        let from = min(from, to);
         let result = Box::new(&input[from..to]);
         scratchpad.set_any(self.output.any(), result);
         self.current_index += self.batch_size;
